@@ -212,8 +212,9 @@ func smokeChild(planPath string) {
 	res.Stage = "traffic"
 	echoAddr := &net.UDPAddr{IP: net.IPv4(127, 0, 0, 1), Port: echoPort}
 	if plan.Mode == "direct" {
-		res.TCP = tcpDirect(test)
-		res.UDP = plan.NoUDP || udpDirect(test)
+		// every server of the configuration sees traffic: the tunnel server directly, the front server via SOCKS5
+		res.TCP = tcpDirect(test) && tcpViaSocks(front, echoAddr)
+		res.UDP = plan.NoUDP || (udpDirect(test) && udpViaSocks(front, echoAddr))
 	} else {
 		res.TCP = tcpViaSocks(front, echoAddr)
 		res.UDP = plan.NoUDP || udpViaSocks(front, echoAddr)
@@ -528,19 +529,48 @@ func genSmoke(r *common.Rng) (ConfigC, SmokePlan) {
 		}
 		c.Router.Routes = []RouteC{rt}
 	}
+	// a route evaluated for requests from every server (fromServers + fromUsers), never matching
+	c.Router.Routes = append(c.Router.Routes, RouteC{Name: "nobody-on-test", Cl: "reject", FS: []string{"test"}, FU: []string{"nobody"}})
 	c.Router.DT, c.Router.DU = "out", "out"
 	c.Servers = []ServerC{front, test}
+	// names: unnamed / case and white-space variants of the other server's name (distinct names, must work)
+	switch r.Intn(6) {
+	case 0:
+		renameServer(&c, "test", "")
+	case 1:
+		renameServer(&c, "front", "")
+	case 2:
+		renameServer(&c, "test", "Front")
+	case 3:
+		renameServer(&c, "test", "front ")
+	}
+	if r.Chance(1, 4) {
+		c.Servers[0], c.Servers[1] = c.Servers[1], c.Servers[0] // the server under test first: other indices
+	}
 	plan.Doc = smokeDoc(c)
 	return c, plan
+}
+
+func renameServer(c *ConfigC, old, new string) {
+	for i := range c.Servers {
+		if c.Servers[i].Name == old {
+			c.Servers[i].Name = new
+		}
+	}
+	renameRefs(c, "server", old, new)
 }
 
 // keysMustMatch: the via client and the test server must share the PSK; JSON() derives keys from the
 // index, so the smoke configurations override both with the same bytes here.
 func smokeDoc(c ConfigC) string {
 	doc := string(c.JSON("/nonexistent"))
-	// server index 1 ("test") uses seed 16+1, client index 1 ("via") uses seed 64+1: rewrite the client's key
-	for _, n := range []int{16, 32} {
-		doc = strings.ReplaceAll(doc, key(n, 65), key(n, 17))
+	// the server listening on @TEST@ (index i) uses key seed 16+i, client index 1 ("via") uses seed 64+1: rewrite the client's key
+	for i, s := range c.Servers {
+		if s.Listen == "@TEST@" {
+			for _, n := range []int{16, 32} {
+				doc = strings.ReplaceAll(doc, key(n, 65), key(n, byte(16+i)))
+			}
+		}
 	}
 	return doc
 }
